@@ -89,6 +89,39 @@ def parser_models(k, single=False):
     return models, sym
 
 
+def _entry_err_parts(core):
+    """BatchEntryErr::into_parts hands back exactly the error object and the id the entry error was built with (RpcService::batch writes the -32600 reply of an
+    invalid entry from these parts): the id is moved out untouched, whatever its kind"""
+    b = R.find_body(core, r"^fn (\w+::)*<impl at core/src/middleware/mod\.rs:[\d: ]+>::into_parts\(_1: BatchEntryErr<'_>\)")
+    ctx = P.make_ctx(core, extra_models=list(M.TRACING_MODELS), max_paths=400)
+    ctx.inline = []
+    ex = Executor(ctx)
+    fi_p, fi_id = R.field_index("Response", "payload"), R.field_index("Response", "id")
+    viol, reach, bad = [], [], []
+    for p in ex.run(b):
+        if p.kind in ("panic", "unreachable"):
+            continue      # the documented unreachable arm: an entry error is only ever built from an error payload
+        if p.kind != "return":
+            bad.append((p.kind, p.detail))
+            continue
+        reach.append(p.cond())
+        try:
+            err = str(to_term(ex.read_node(p.ret.kids[0])))
+            rid = str(to_term(ex.read_node(p.ret.kids[1])))
+        except (KeyError, AttributeError):
+            err = rid = "?"
+        if rid != f"obj:arg1.0.{fi_id}" or not err.startswith(f"obj:arg1.0.{fi_p}.Error"):
+            viol.append(p.cond())
+    reach_l = R.live_reach(viol, reach, bad)
+    nm = "kernel:BatchEntryErr::into_parts"
+    if bad or not reach_l[0]:
+        return R.Result(engine="mirsym", name=nm, kind="kernel", status="unsupported" if bad else "vacuous", detail=str(bad[:1])[:300], bodies=[b.name])
+    return R.decide(nm, "kernel", z3.Or(*viol) if viol else z3.BoolVal(False), [z3.Or(*reach_l[0])], bodies=[b.name],
+                    desc="the parts of an invalid batch entry's error are the error object and the id it was built with, the id moved out untouched whatever its kind (number, text, null)",
+                    bounds="every path of into_parts; all ids (one opaque object)", keydetail="entry-err-parts",
+                    replay=dict(scenario="c02_batches", vars={}, fixed={"k": 2, "limit": "8"}, region=z3.BoolVal(True)))
+
+
 def _pre_state(body, fields):
     def pre(e, st, b):
         pin = st["mem"][(0, b.params[0][0])]
@@ -400,6 +433,7 @@ def obligations(tier, seed):
             r["replay"] = {"scenario": "c02_ws_batch_with_subscription", "args": {"entries": ["sub", "call"]}}
         out.append(r)
     out.append(_ws_reply_decision(R.bodies("server")))
+    out.append(_entry_err_parts(R.bodies("core")))
     # "only the response-size limit (C08) may replace the array by a single error": what decides that replacement is the text length alone - never what an entry is
     # (e.g. an entry that is itself a -32008 error) - the append / builder kernels of C08, shared
     from . import C08 as _c08
